@@ -27,6 +27,17 @@ def main():
     checks = []
     for pid in sorted(claimed):
         c = claimed[pid]
+        # the rules currently implemented for the property, read from its module (ids and one-line descriptions live in the code)
+        rule_ids = []
+        try:
+            import re
+            src = open(os.path.join(VERIF, "vf", "props", pid.lower() + ".py")).read()
+            rule_ids = sorted(set(re.findall(r'"(%s\.[A-Z][0-9]+[a-z]?)"' % pid, src)), key=lambda x: (x.split(".")[1][0], int(re.sub(r"\D", "", x.split(".")[1]) or 0), x))
+        except OSError:
+            pass
+        note = re.sub(r"Partial: (structural )?clauses? [A-Z0-9, /\-]+( only)?\.?", "", c.get("note", "")).strip()
+        note = ("Rules implemented: %s (what each decides: DESIGN.md §4/§9 and the `explanation` of the evidence file). " % ", ".join(rule_ids)) + note
+        c = dict(c, note=note)
         checks.append({
             "property_id": pid,
             "quick_cmd": "./check %s" % pid,
